@@ -374,7 +374,7 @@ func reifyGetField(
 		// None primitive types always get initialized even if it doesn't implement the
 		// Initializer interface, because nested types might implement the Initializer interface.
 		if value == nil {
-			value = &cfgNil{cfgPrimitive{cfg.ctx, cfg.metadata}}
+			value = &cfgNil{cfgPrimitive{context{parent: cfgSub{cfg}, field: name}, cfg.metadata}}
 		}
 	}
 
@@ -702,8 +702,25 @@ func reifyPrimitive(
 ) (reflect.Value, Error) {
 	// zero initialize value if val==nil
 	if isNil(val) {
-		v := pointerize(t, baseType, reflect.Zero(baseType))
-		return tryInitDefaults(v), nil
+		v := tryInitDefaults(pointerize(t, baseType, reflect.Zero(baseType)))
+		if !hasInitDefaults(baseType) {
+			return v, nil
+		}
+
+		// what InitDefaults leaves behind is validated like a converted value
+		var ctx context
+		var meta *Meta
+		if val != nil {
+			ctx, meta = val.Context(), val.meta()
+		}
+		base := chaseValuePointers(v)
+		if err := runValidators(base.Interface(), opts.validators); err != nil {
+			return reflect.Value{}, raiseValidation(ctx, meta, "", err)
+		}
+		if err := tryValidate(base); err != nil {
+			return reflect.Value{}, raiseValidation(ctx, meta, "", err)
+		}
+		return v, nil
 	}
 
 	var v reflect.Value
